@@ -5,6 +5,7 @@ package main
 
 import (
 	"fmt"
+	"go/constant"
 	"go/token"
 	"go/types"
 
@@ -54,6 +55,56 @@ func ruleTabOnly(p *Prog, r *Report, c tabOnlyCfg) {
 	// bindings of the parameters of a helper being looked into (see the *ssa.Call case of allowed)
 	env := map[*ssa.Parameter]ssa.Value{}
 	var fromTable func(v ssa.Value, d int) bool
+	var curRet *ssa.Return // the return of f being examined
+	// calleeResult: result idx of a helper of the package called by f (`entry, ok := lookupRange(r)`) comes from the table on
+	// every return of the helper that the caller can be using: when the return of f under examination is only reached
+	// through the true edge of a test of another, boolean, result of the same call, the returns of the helper giving the
+	// constant false for that result are not among them.
+	calleeResult := func(call *ssa.Call, sc *ssa.Function, idx int, d int) bool {
+		okIdx := -1
+		if refs := call.Referrers(); refs != nil && curRet != nil {
+			for _, u := range *refs {
+				ex, isEx := u.(*ssa.Extract)
+				if !isEx || ex.Index == idx || ex.Referrers() == nil {
+					continue
+				}
+				for _, iu := range *ex.Referrers() {
+					if iff, isIf := iu.(*ssa.If); isIf && iff.Cond == ssa.Value(ex) {
+						if t := iff.Block().Succs[0]; len(t.Preds) == 1 && t.Dominates(curRet.Block()) {
+							okIdx = ex.Index
+						}
+					}
+				}
+			}
+		}
+		for i, q := range sc.Params {
+			if i < len(call.Common().Args) {
+				env[q] = call.Common().Args[i]
+			}
+		}
+		defer func() {
+			for _, q := range sc.Params {
+				delete(env, q)
+			}
+		}()
+		n := 0
+		for _, b := range sc.Blocks {
+			ret, ok := b.Instrs[len(b.Instrs)-1].(*ssa.Return)
+			if !ok || idx >= len(ret.Results) {
+				continue
+			}
+			if okIdx >= 0 && okIdx < len(ret.Results) {
+				if k, isK := ret.Results[okIdx].(*ssa.Const); isK && k.Value != nil && k.Value.Kind() == constant.Bool && !constant.BoolVal(k.Value) {
+					continue // the caller does not use the value of this return
+				}
+			}
+			n++
+			if !fromTable(ret.Results[idx], d+1) {
+				return false
+			}
+		}
+		return n > 0
+	}
 	fromTable = func(v ssa.Value, d int) bool {
 		if d > 12 {
 			return false
@@ -80,6 +131,11 @@ func ruleTabOnly(p *Prog, r *Report, c tabOnlyCfg) {
 		case *ssa.Lookup:
 			return fromTable(x.X, d+1)
 		case *ssa.Extract:
+			if call, ok := x.Tuple.(*ssa.Call); ok {
+				if sc := call.Common().StaticCallee(); sc != nil && sc.Blocks != nil && fnPkg(sc) == fnPkg(f) && sc != f && len(env) == 0 {
+					return calleeResult(call, sc, x.Index, d)
+				}
+			}
 			return fromTable(x.Tuple, d+1)
 		case *ssa.Slice:
 			return fromTable(x.X, d+1)
@@ -196,6 +252,7 @@ func ruleTabOnly(p *Prog, r *Report, c tabOnlyCfg) {
 				continue
 			}
 			n++
+			curRet = ret
 			nilOK = c.zero || testedNonNil(ret.Results[c.resultIdx], ret.Block())
 			s := allowed(ret.Results[c.resultIdx], 0)
 			if s != "" {
@@ -349,4 +406,3 @@ func appendedFromTable(a ssa.Value, isTabLoad func(ssa.Value) bool) bool {
 	}
 	return false
 }
-
